@@ -90,7 +90,15 @@ func runOne(ctx context.Context, sp SolverSpec, file string, timeoutS, seed int)
 	_ = cmd.Run()
 	ms := time.Since(t0).Milliseconds()
 	s := out.String()
-	first := strings.TrimSpace(strings.SplitN(s, "\n", 2)[0])
+	first := ""
+	for _, ln := range strings.Split(s, "\n") {
+		ln = strings.TrimSpace(ln)
+		if ln == "" || strings.HasPrefix(ln, "WARNING") || strings.HasPrefix(ln, ";") {
+			continue
+		}
+		first = ln
+		break
+	}
 	st := "error"
 	switch {
 	case first == "unsat", first == "sat", first == "unknown":
